@@ -96,7 +96,7 @@ func c14Run(ctx *core.Ctx) {
 	maxStr := 2
 	if ctx.Thorough() {
 		stride = 1
-		maxStr = 3
+		maxStr = 4
 	}
 	ctx.Rule = fmt.Sprintf("real client <-> real server with DSN, RRVS, REQUIRETLS (under TLS), AUTH and +/-SMTPUTF8: every Unicode scalar value individually in ORCPT(utf-8) (all of U+0000-U+07FF, the boundaries of every UTF-8 length and hex-digit-count class, and every %d-th value above; both unitext and xtext forms), every 7-bit value in ENVID / ORCPT(rfc822) / AUTH local-part, all strings of length <=%d over {+,=,SP,\\,{,},x,A,2,DEL,e-acute,katakana,emoji} in every string option, all NOTIFY sets in several orders, RET, SIZE {0,1,2^31,2^32,2^40}, RRVS times with zones and sub-second parts, all 2^7 MAIL and 2^3 RCPT option-presence subsets. Non-trivial: the operation was accepted by the client API (no local error) and compared at the backend; distinct by (server form, operation).", stride, maxStr)
 	ctx.Assumptions = []string{"MailOptions.Body is not judged (the client always sends BODY=8BITMIME)", "a server refusal counts as an encoding fault only for values in the stated domain (printable ASCII / non-ASCII text; mailbox-shaped for AUTH=)", "control characters are judged for silent corruption only"}
